@@ -50,5 +50,5 @@ fn vx_witness_param_subset() {
             if n_bad <= 4 { println!("WITNESS subset({list:?}) of [propane, butane, hexane] has pure records {got_names:?} (expected {:?}) and k_ij {got_k:?}", list.iter().map(|&i| names[i].clone()).collect::<Vec<_>>()); }
         }
     }
-    println!("explored 15 index lists, {n_bad} wrong");
+    println!("explored: 15 index lists, {n_bad} wrong");
 }
